@@ -1,22 +1,89 @@
 """C09 - an auth verdict depends only on the event and the state it needs.
 
-Checker.tla models the reusable checker (cache of create / power-levels / join-rules keyed by event identity);
-TLC checks Coherent and OnlyNeeded over all check sequences; every sequence is replayed through ONE real
-allowerContext driven as state resolution drives it, and through fresh Allowed().  Metamorphic variants
-(insertion order, needed subset, padding with un-needed state, repetition, AddAuthEvents selection) are
-applied to the Auth_gen.tla member / generic scenarios."""
+Checker.tla models the reusable checker (cache of create / power-levels / join-rules keyed by the identity of the
+event OBJECT - two objects can share an event ID: an event and its redacted copy, sender-chosen IDs); TLC checks
+Coherent and OnlyNeeded over all check sequences; every sequence is replayed through ONE real allowerContext driven
+as state resolution drives it, and through fresh Allowed().  Metamorphic variants (insertion order, needed subset,
+padding with un-needed state, repetition, AddAuthEvents selection) are applied to the Auth_gen.tla member / generic
+scenarios, with user IDs as sender IDs and - in the pseudo-ID room version - with sender keys and a key -> user
+mapping."""
+import os
+from concurrent.futures import ThreadPoolExecutor
+
 from vlib import auth
+from vlib.core import MachineryError
+
+PSEUDO = "org.matrix.msc4014"
+# the quick version set of the Auth_gen families plus the pseudo-ID version (realised with sender keys)
+QUICK_VERSIONS = '{"1", "6", "8", "10", "12", "%s"}' % PSEUDO
+FAMILIES = ["member_self", "member_restricted", "member_other", "member_tpi", "generic", "structure", "pl0", "create"]
+
+
+def gen_family(ctx, fam, workers):
+    d = ctx._spec_dir()
+    cfg = "Auth_gen_%s_c09_%s.cfg" % (fam, ctx.tier)
+    versions = ("Versions = %s" % QUICK_VERSIONS) if ctx.tier == "quick" else "Versions <- VersionsAll"
+    with open(os.path.join(d, cfg), "w") as f:
+        f.write("SPECIFICATION Spec\nCONSTANTS\n  %s\n  Family = \"%s\"\n  PLDepth = \"small\"\n"
+                "INVARIANTS %s\nCHECK_DEADLOCK FALSE\n" % (versions, fam, auth.INVS))
+    return ctx.tlc("Auth_gen", cfg, timeout=1500, workers=workers)
+
+
+def sequences(ctx, r):
+    """Joins the pool records (one per version) with the compact sequence records of Checker_gen.tla."""
+    pools = {x["ver"]: x["pool"] for x in r.records if "pool" in x}
+    by_ver = {}
+    for x in r.records:
+        if "seq" in x:
+            by_ver.setdefault(x["ver"], []).append(x)
+    if not pools or set(pools) != set(by_ver):
+        raise MachineryError("Checker_gen emitted pools for %s but sequences for %s" % (sorted(pools), sorted(by_ver)))
+    for ver in sorted(by_ver):
+        pool = pools[ver]
+        out = []
+        for x in by_ver[ver]:
+            steps = []
+            for n, want in zip(x["seq"], x["want"]):
+                s = pool[n - 1]
+                if s["n"] != n:
+                    raise MachineryError("pool of version %s is not in index order" % ver)
+                steps.append(dict(s, want=want))
+            out.append({"ver": ver, "steps": steps})
+        yield ver, out
 
 
 def run(ctx):
     ctx.repro_attempts = 6   # order- and schedule-dependent misbehaviour is retried in fresh processes
-    ctx.assumptions += ["in-package access to allowerContext through the build-time overlay accessor VerifChecker"]
+    ctx.assumptions += ["in-package access to allowerContext through the build-time overlay accessor VerifChecker",
+                        "pseudo-ID rooms: sender keys are ed25519 public keys derived from fixed seeds; the caller's "
+                        "UserIDForSender knows exactly these keys; mxid_mapping signatures are not verified by the auth rules"]
     ctx.exhaustive = True
-    ctx.notes["rule"] = ("all check sequences of length MaxLen over the 21-step pool of Checker.tla per version; "
-                         "plus metamorphic variants of every scenario of the Auth_gen families member_self, "
-                         "member_restricted, member_other, member_tpi, generic, structure, pl0, create")
-    r = ctx.tlc("Checker_gen", "Checker_gen_%s.cfg" % ctx.tier, timeout=1500)
-    ctx.replay_and_compare("c09", r.records)
-    for fam in ["member_self", "member_restricted", "member_other", "member_tpi", "generic", "structure", "pl0", "create"]:
-        g = auth.gen_family(ctx, fam)
-        ctx.replay_and_compare("c09meta", g.records)
+    ctx.notes["rule"] = ("all check sequences of length MaxLen over the 31-step pool of Checker.tla per version (chosen event "
+                         "IDs; natural IDs + PDU.Redact() where a redacted power-levels / join-rules copy occurs; sender keys "
+                         "in the pseudo-ID version); plus metamorphic variants of every scenario of the Auth_gen families "
+                         "member_self, member_restricted, member_other, member_tpi, generic, structure, pl0, create, the "
+                         "pseudo-ID version realised with sender keys")
+    # the Auth_gen families are independent TLC runs: a few at a time, next to the sequence run
+    ctx._spec_dir()   # create the scratch copy of spec/ before the threads start
+    with ThreadPoolExecutor(max_workers=4) as ex:
+        fams = [ex.submit(gen_family, ctx, fam, max(2, ctx.workers // 4)) for fam in FAMILIES]
+        r = ctx.tlc("Checker_gen", "Checker_gen_%s.cfg" % ctx.tier, timeout=1500, workers=max(2, ctx.workers // 2))
+        if ctx.tier == "thorough":
+            # sanity of the pool: a cache keyed by event ID instead of object identity must be refuted by the model
+            bad = ctx.tlc("Checker_gen", "Checker_gen_eventid.cfg", timeout=600, workers=2, allow_violation=True,
+                          expect_records=False)
+            if bad.violated != "Coherent":
+                raise MachineryError("Checker.tla with CacheKey = \"eventid\" should violate Coherent (the pool no longer "
+                                     "tells event IDs from event objects), got %r" % bad.violated)
+        if ctx.tier == "quick":
+            ctx.replay_and_compare("c09", [x for _, recs in sequences(ctx, r) for x in recs])
+        else:
+            for _, recs in sequences(ctx, r):   # one batch per version keeps the expanded records small
+                ctx.replay_and_compare("c09", recs)
+        for f in fams:
+            g = f.result()
+            pseudo = [dict(x, idmode="pseudo") for x in g.records if x["ver"] == PSEUDO]
+            plain = g.records if ctx.tier == "thorough" else [x for x in g.records if x["ver"] != PSEUDO]
+            if not pseudo:
+                raise MachineryError("no scenario of room version %s generated for family %s" % (PSEUDO, g))
+            ctx.replay_and_compare("c09meta", plain + pseudo)
